@@ -80,18 +80,20 @@ class Vars:
         self.bools.append(b)
         return SBool(b)
 
-    def time(self, name, nat=False, frac=False):
+    def time(self, name, nat=False, frac=False, den=8):
         from . import calendar_model as cal
         s = z3.Int(name)
         self.names.append(name)
         self.assumptions += [s >= cal.t_lo(), s < cal.t_hi()]
+        self.terms.append((s, cal.t_lo(), cal.t_hi() - 1))
         f = None
         if frac:
-            # sub-second part: any real in [0,1) for the proof; a multiple of 1/8 s (exact in ns) when a model is replayed
+            # sub-second part: any real in [0,1) for the proof; a multiple of 1/den s when a model is replayed (1/8 s is exact both in
+            # ns and as a binary64 number of seconds; den=10**9 allows every ns for jobs without float carriers)
             f = z3.Real(name + "!frac")
             self.assumptions += [f >= 0, f < 1]
             k = z3.Int(name + "!fk")
-            self.grid.append(f * 8 == z3.ToReal(k))
+            self.grid.append(f * den == z3.ToReal(k))
         return STime(s, z3.Bool(name + "!nat") if nat else FALSE, f)
 
     def string(self, name, maxlen, alphabet=None):
@@ -768,6 +770,7 @@ def run_job(job, seed=0, replay_dir=None, cross_check=0):
                                                                 via="witness"))
                         elif not bad:
                             res["mismatches"].append({"path": res["paths"], "detail": detail, "inputs": jsonable(Sc)})
+                            blind_pcs.append(pc)      # the model is wrong on this path: probe the real code along it
                     if len(res["samples"]) < 3:
                         res["samples"].append({"inputs": jsonable(Sc), "real": rout.describe(),
                                                "model": out.describe(wmodel)})
@@ -913,6 +916,7 @@ def fallback_probe(job, S, V, ex, res, real_outcome, known, replay_dir, budget=1
         targets += [term == lo, term == hi]
     for b in V.bools:
         targets += [b, z3.Not(b)]
+    oracle_atoms = [t for t in targets if z3.is_bool(t)][:200]
     targets = targets[:budget]
     # one probe per path the model had to abandon: the decisions taken before the unsupported call (window layouts, sizes,
     # branch outcomes) select the input, so every structural case the exploration had already separated is tried on the real code
@@ -927,7 +931,8 @@ def fallback_probe(job, S, V, ex, res, real_outcome, known, replay_dir, budget=1
             models.append(m)
     # ... and, per abandoned path, inputs pulled towards pseudo-random values (the solver's own models are as degenerate as the
     # path allows: equal or evenly spaced values, on which e.g. a median and a mean coincide)
-    models += _scattered_models(V, list(V.assumptions) + cons + excl, [pc for pc in list(blind_pcs)[:path_budget // 4] if pc], getattr(job, "name", ""))
+    models += _scattered_models(V, list(V.assumptions) + cons + excl, [pc for pc in list(blind_pcs)[:path_budget // 4]],
+                                getattr(job, "name", ""), atoms=oracle_atoms)
     seen = set()
     found = 0
     for m in models:
@@ -954,9 +959,14 @@ def fallback_probe(job, S, V, ex, res, real_outcome, known, replay_dir, budget=1
                 break
 
 
-def _scattered_models(V, hard, pcs, salt, per_path=2, timeout_ms=1500):
+def _scattered_models(V, hard, pcs, salt, per_path=None, timeout_ms=1500, atoms=()):
     """models of each path condition in which the declared numeric inputs are pulled (soft constraints, z3 Optimize) towards
-    pseudo-random values of grid G inside their declared ranges; deterministic in the job name"""
+    pseudo-random values of grid G inside their declared ranges and a few randomly chosen oracle comparisons are asked to hold
+    (so that the draws land inside spans / windows more often than uniform values would); deterministic in the job name"""
+    if not pcs:
+        return []
+    if per_path is None:
+        per_path = max(2, min(8, 24 // len(pcs)))
     import random
     import zlib
     rng = random.Random(zlib.crc32(salt.encode()))
@@ -978,6 +988,8 @@ def _scattered_models(V, hard, pcs, salt, per_path=2, timeout_ms=1500):
                     lo_, hi_ = float(lo), float(hi)
                 x = Fraction(round(rng.uniform(lo_, hi_) * 8), 8)
                 opt.add_soft(t == (z3.IntVal(int(x)) if z3.is_int(t) else rv(x)))
+            for a in rng.sample(list(atoms), min(4, len(atoms))):
+                opt.add_soft(a, 8)
             try:
                 if opt.check() == z3.sat:
                     out.append(opt.model())
